@@ -318,7 +318,132 @@ Section Windows.
     destruct (gnext (q st)) as [[[t m] l]|] eqn:G.
     - destruct W as (st' & -> & Hq' & Hi'). f_equal.
       rewrite IH; [rewrite Hq', skipn_skipn; f_equal; f_equal; lia|exact Hi'|].
-      unfold gnext in G. pose proof (first_marker_false_gt _ _ _ _ _ G). lia.
+      unfold gnext in G. pose proof (first_marker_false_gt _ _ _ _ _ G).
+      apply first_marker_len in G as [G1 _]. rewrite skipn_length in G1. lia.
     - rewrite W. reflexivity.
   Qed.
 End Windows.
+
+(* ---------- Find(startRegexp) ---------- *)
+Lemma start_here_firstn9 s : start_here s = start_here (firstn 9 s).
+Proof.
+  do 9 (destruct s as [|? s]; [reflexivity|]). reflexivity.
+Qed.
+
+Lemma start_here_len s v : start_here s = Some v -> (9 <= length s)%nat.
+Proof.
+  do 9 (destruct s as [|? s]; [unfold start_here; cbn; repeat (match goal with |- context [if ?c then _ else _] => destruct c end; try discriminate); discriminate|]).
+  intros _. cbn [length]. lia.
+Qed.
+
+Lemma start_here_trunc s n : (9 <= n)%nat -> start_here (firstn n s) = start_here s.
+Proof.
+  intros H. rewrite (start_here_firstn9 (firstn n s)), firstn_firstn.
+  replace (Nat.min 9 n) with 9%nat by lia. symmetry. apply start_here_firstn9.
+Qed.
+
+Lemma start_here_short s n : (n < 9)%nat -> start_here (firstn n s) = None.
+Proof.
+  intros H. destruct (start_here (firstn n s)) eqn:E; [|reflexivity].
+  apply start_here_len in E. rewrite firstn_length in E. lia.
+Qed.
+
+Lemma find_start_from_bound : forall s p hs h v,
+  find_start_from p s = Some (hs, h, v) -> (p <= hs /\ h = hs + 9 /\ h <= p + length s)%nat.
+Proof.
+  induction s as [|b s IH]; intros p hs h v H; cbn [find_start_from] in H; [discriminate|].
+  destruct (start_here (b :: s)) eqn:E.
+  - inversion H; subst. apply start_here_len in E. lia.
+  - apply IH in H. cbn [length]. lia.
+Qed.
+
+Lemma find_start_from_trunc : forall s p n hs h v,
+  find_start_from p s = Some (hs, h, v) -> (h - p <= n)%nat ->
+  find_start_from p (firstn n s) = Some (hs, h, v).
+Proof.
+  induction s as [|b s IH]; intros p n hs h v H Hn; cbn [find_start_from] in H; [discriminate|].
+  pose proof (find_start_from_bound (b :: s) p hs h v) as Hb. cbn [find_start_from] in Hb. specialize (Hb H).
+  destruct n as [|n]; [lia|].
+  change (firstn (S n) (b :: s)) with (b :: firstn n s). cbn [find_start_from].
+  change (b :: firstn n s) with (firstn (S n) (b :: s)).
+  destruct (start_here (b :: s)) eqn:E.
+  - inversion H; subst. rewrite start_here_trunc by lia. rewrite E. reflexivity.
+  - assert (En : start_here (firstn (S n) (b :: s)) = None).
+    { destruct (Nat.le_gt_cases 9 (S n)); [rewrite start_here_trunc by lia; exact E|apply start_here_short; lia]. }
+    rewrite En. apply IH; [exact H|].
+    apply find_start_from_bound in H. lia.
+Qed.
+
+Definition st0 : sstate := {| st_base := 0; st_pos := 0; st_used := 0 |}.
+
+Definition adv (st : sstate) : sstate :=
+  if Nat.ltb (st_pos st + overlap) (st_used st)
+  then {| st_base := st_base st; st_pos := (st_used st - overlap)%nat; st_used := st_used st |}
+  else st.
+
+Lemma start_state_unfold back fuel file st :
+  start_state back (S fuel) file st =
+  match find_start (slice file st) with
+  | Some (ms, me, _) =>
+    Some ((st_base st + st_pos st + ms)%nat, (st_base st + st_pos st + me)%nat,
+          {| st_base := st_base st; st_pos := (st_pos st + me - back)%nat; st_used := st_used st |})
+  | None =>
+    if Nat.ltb (st_used (adv st)) buf_size && Nat.eqb (st_used (adv st)) (st_used (refill file (adv st))) then None
+    else start_state back fuel file (refill file (adv st))
+  end.
+Proof. reflexivity. Qed.
+
+Lemma start_state_spec data hs h v :
+  find_start data = Some (hs, h, v) -> (h <= buf_size)%nat ->
+  exists st, start_state 1 (S (S (length data))) data st0 = Some (hs, h, st)
+             /\ q st = (h - 1)%nat /\ inv data st.
+Proof.
+  intros Hf Hh. unfold find_start in Hf.
+  pose proof (find_start_from_bound _ _ _ _ _ Hf) as (Hhs & Hh9 & Hlen).
+  pose proof (buf_size_val) as HB. pose proof overlap_val as HO.
+  rewrite start_state_unfold.
+  assert (S0 : slice data st0 = []) by reflexivity.
+  rewrite S0. change (find_start []) with (@None (nat * nat * (byte * byte))).
+  assert (A0 : adv st0 = st0) by reflexivity. rewrite A0.
+  set (st2 := refill data st0).
+  assert (Hu2 : st_used st2 = Nat.min buf_size (length data)).
+  { unfold st2, refill, st0. cbn [st_base st_pos st_used]. lia. }
+  assert (Hb2 : st_base st2 = 0%nat /\ st_pos st2 = 0%nat) by (split; reflexivity).
+  destruct Hb2 as [Hb2 Hp2].
+  assert (Ht : (Nat.ltb (st_used st0) buf_size && Nat.eqb (st_used st0) (st_used st2)) = false).
+  { apply andb_false_iff. right. apply Nat.eqb_neq. cbn [st0 st_used]. lia. }
+  rewrite Ht. rewrite start_state_unfold.
+  assert (S2 : slice data st2 = firstn (st_used st2) data).
+  { unfold slice. rewrite Hb2, Hp2. cbn [Nat.add skipn]. rewrite Nat.sub_0_r. reflexivity. }
+  rewrite S2. unfold find_start.
+  rewrite (find_start_from_trunc _ _ _ _ _ _ Hf) by lia.
+  eexists. split; [rewrite Hb2, Hp2; reflexivity|].
+  unfold q, inv. cbn [st_base st_pos st_used]. rewrite ?Hb2, ?Hp2, ?Hu2. repeat split; lia.
+Qed.
+
+(* ---------- the theorem ---------- *)
+(* a file is tame when no marker text is longer than the overlap of the search windows and
+   no cut turns a non-marker into a marker *)
+Definition tame (data : bytes) : Prop :=
+  (forall j m l, marker_at (skipn j data) = Some (m, l) -> (l <= overlap)%nat) /\ stable data.
+
+Theorem windows_eq_ideal_lemma data hs h v :
+  find_start data = Some (hs, h, v) -> (h <= buf_size)%nat -> tame data ->
+  scan_windows data = scan_ideal data.
+Proof.
+  intros Hf Hh [Hshort Hst]. unfold scan_windows, scan_ideal. rewrite Hf.
+  destruct (start_state_spec data hs h v Hf Hh) as (st & -> & Hq & Hinv). fold st0.
+  f_equal. rewrite (win_scan_spec data Hshort Hst) by (try exact Hinv; lia).
+  rewrite Hq. reflexivity.
+Qed.
+
+(* every prefix of a tame file is tame *)
+Lemma tame_firstn data n : tame data -> tame (firstn n data).
+Proof.
+  intros [Hshort Hst]. split.
+  - intros j m l H. rewrite skipn_firstn in H. apply (Hst j (n - j)%nat) in H. eapply Hshort; eauto.
+  - intros j k r H. rewrite skipn_firstn in *. rewrite firstn_firstn in H.
+    pose proof (Hst j _ _ H) as G. destruct r as [m l].
+    apply marker_at_firstn; [exact G|].
+    apply marker_at_text in H as [[_ H] _]. rewrite firstn_length in H. lia.
+Qed.
